@@ -17,6 +17,19 @@ CATS = ["res", "nv"]
 GEN = dict(scans=True, dumps=False, iscans=True)
 
 
+def iphantom_check(r):
+    """the cursor's node-version set: a covered insert must leave a recorded pair stale, and the set is not empty"""
+    import re
+    bad = []
+    for i, op in enumerate(r.ops):
+        if op.startswith("iphantom"):
+            m = re.search(r"cov=(\d) det=(\d) nvn=(\d+)", r.impl[i])
+            if m and m.group(1) == "1" and (m.group(2) == "0" or m.group(3) == "0"):
+                bad.append((i, "a cursor was driven to its end, then an absent key of its interval was inserted: no recorded "
+                               "(version,node) pair is stale (%s)" % r.impl[i]))
+    return bad
+
+
 def cursor_phase(res, tier, seed):
     ok, msg = seq.build("c10")
     if not ok:
@@ -63,7 +76,7 @@ def run(tier, seed):
     n, steps = cursor_phase(res, tier, seed)
     res.cov["cursor_scripts"] = n
     res.cov["cursor_steps_with_interleaved_writes"] = steps
-    return seq.run_seq_property(res, "c10", CATS, 40, 400, gen_kwargs=GEN)
+    return seq.run_seq_property(res, "c10", CATS, 40, 400, gen_kwargs=GEN, extra_check=iphantom_check)
 
 
 def replay(path, tier, seed):
@@ -78,4 +91,4 @@ def replay(path, tier, seed):
                 print(o, "->", rr.impl[i])
         print("violations:", b or "none")
         return 1 if b else 0
-    return seq.replay_seq("C10", "c10", path, CATS)
+    return seq.replay_seq("C10", "c10", path, CATS, extra_check=iphantom_check)
